@@ -3,6 +3,7 @@ import Comet.TopK
 import Comet.Scalar
 import Comet.Agg
 import Comet.Vector.Flat
+import Comet.Vector.HNSW
 import Comet.F32
 import Comet.Distance
 import Comet.DistanceF32
@@ -10,4 +11,5 @@ import Comet.Hybrid
 import Comet.BM25
 import Comet.BM25F
 import Comet.HybridSearch
+import Comet.Vector.Pipeline
 import Comet.Driver.Loop
